@@ -2,6 +2,8 @@ import SpoxModel.Lemmas.Renames
 import SpoxModel.Lemmas.Front
 import SpoxModel.Lemmas.Reach
 import SpoxModel.Generated.RenamesIR
+import SpoxModel.Lemmas.FrontIR
+import SpoxModel.Generated.BuildFrontIR
 /-!
 # C03 — the model's inputs and outputs are exactly what was requested
 
@@ -271,5 +273,111 @@ theorem discover_all_arguments_spec_checked (P : List Obj) (hwf : wfb P = true) 
     dependsOn P outs a = true ↔
       (∃ e ∈ outs, Reach P e.obj a) ∧ ArgObj P a ∧ ¬ ∃ e ∈ outs, Bound P e.obj a :=
   discover_all_arguments_spec P ((wfb_iff P).mp hwf) outs houts a
+
+/-! ## `build`, statement by statement
+
+`Front.build` above is a closed expression written by hand. `FrontIR.run` executes the *list of
+statements* of `src/spox/_public.py::build` extracted on this run (`Generated/BuildFrontIR.lean`: the
+guards in their order with the exception class each raises, the `with _temporary_renames(**inputs)`
+block, `results(**outputs)`, the `drop_unused_inputs` option deciding whether
+`with_arguments(*inputs.values())` is called, `to_onnx_model()`, the "additional inputs" test, the
+re-listing, `return`). The driver runs that list next to the real `spox.build` on every request. -/
+
+abbrev buildIR := Generated.BuildFrontIR.ir
+
+/-- Obligation tying the statement-level model to the source: the list extracted from `_public.py` on
+    this run is the accepted one (no statement the extractor does not understand, guards in this
+    order, this exception class each, the option handled this way). -/
+theorem generated_build_good : FrontIR.goodShape buildIR = true := by decide
+
+/-- The statements of `build` in /repo now compute exactly `Front.build` (fixed code): names
+    afterwards and result — model or error class — for every program, request, set order and store. -/
+theorem build_statements_refine (P : List Obj) (π : List Nat → List Nat) (req : Request) (s : Store) :
+    FrontIR.run buildIR ir P π req s = build ir P π true req s := by
+  rw [FrontIR.goodShape_eq generated_build_good, goodShape_eq generated_good]
+  exact FrontIR.run_fixedIR P π req s
+
+/-- What the `drop_unused_inputs` option does to the main Graph: without it the compiled graph's
+    arguments are exactly the listed Vars, in the listed order (`with_arguments(*inputs.values())`,
+    no set involved); with it they are the discovered ones, `all − claimed`, in set order `π`; in
+    both cases no argument occurs twice and every argument some output depends on is among them. -/
+theorem arguments_of_main_graph (P : List Obj) (π : List Nat → List Nat) (outs : List Entry) (s : Store)
+    (b : FrontIR.Built) :
+    (∀ l, FrontIR.compile P π outs (some l) s = .ok b → b.args = l) ∧
+    (FrontIR.compile P π outs none s = .ok b → b.args = π (freeArgs P outs)) ∧
+    (∀ ra, FrontIR.compile P π outs ra s = .ok b →
+        hasDup b.args = false ∧ ∀ a, dependsOn P outs a = true → a ∈ b.args) :=
+  ⟨fun l h => (FrontIR.compile_requested P π outs l s b h).1,
+   fun h => (FrontIR.compile_discovered P π outs s b h).1,
+   fun ra h => ⟨(FrontIR.compile_args_sound P π outs ra s b h).1,
+     fun a ha => (FrontIR.compile_args_sound P π outs ra s b h).2 a (List.contains_iff_mem.mp ha)⟩⟩
+
+/-- Hence every clause of the property holds of the extracted statement list. -/
+theorem inputs_exact_stmts (P : List Obj) (π : List Nat → List Nat) (ins outs : List Entry)
+    (s : Store) (m : Model)
+    (h : (FrontIR.run buildIR ir P π ⟨ins, outs, false⟩ s).2 = .ok m) :
+    m.inputs = ins.map (info P) := by
+  rw [build_statements_refine] at h
+  exact inputs_exact P π true ins outs s m h
+
+theorem outputs_exact_stmts (P : List Obj) (π : List Nat → List Nat) (req : Request)
+    (s : Store) (m : Model)
+    (h : (FrontIR.run buildIR ir P π req s).2 = .ok m) :
+    m.outputs = req.outputs.map (info P) ∧ m.outVars = req.outputs.map (·.obj) := by
+  rw [build_statements_refine] at h
+  exact outputs_exact P π true req s m h
+
+theorem inputs_dropped_stmts (P : List Obj) (π : List Nat → List Nat) (hπ : ∀ l, (π l).Perm l)
+    (ins outs : List Entry) (s : Store) (m : Model)
+    (hkeys : (ins.map (·.name)).Nodup) (hobjs : (ins.map (·.obj)).Nodup)
+    (hunnamed : ∀ v, v ∉ ins.map (·.obj) → s v = none)
+    (h : (FrontIR.run buildIR ir P π ⟨ins, outs, true⟩ s).2 = .ok m) :
+    m.inputs = (ins.filter (fun e => dependsOn P outs e.obj)).map (info P) := by
+  rw [build_statements_refine] at h
+  exact inputs_dropped P π hπ ins outs s m hkeys hobjs hunnamed h
+
+theorem missing_input_keyerror_stmts (P : List Obj) (π : List Nat → List Nat) (hπ : ∀ l, (π l).Perm l)
+    (req : Request) (s : Store) (hwf : WellFormed P req)
+    (hunnamed : ∀ v, v ∉ req.inputs.map (·.obj) → s v = none)
+    (a : Nat) (ha : dependsOn P req.outputs a = true) (hmiss : a ∉ req.inputs.map (·.obj)) :
+    (FrontIR.run buildIR ir P π req s).2 = .error .key := by
+  rw [build_statements_refine]
+  exact missing_input_keyerror P π hπ true req s hwf hunnamed a ha hmiss
+
+theorem type_errors_stmts (P : List Obj) (π : List Nat → List Nat) (req : Request) (s : Store) :
+    (∀ e ∈ req.inputs, isArg P e.obj = false → (FrontIR.run buildIR ir P π req s).2 = .error .type) ∧
+    (∀ e ∈ req.outputs, isVar P e.obj = false → (FrontIR.run buildIR ir P π req s).2 = .error .type) := by
+  rw [build_statements_refine]
+  exact ⟨fun e he h => non_argument_typeerror P π true req s e he h,
+         fun e he h => non_var_output_typeerror P π true req s e he h⟩
+
+/-- A build through the extracted statements leaves every Var's name as it found it, whatever the
+    outcome (C12's clause, here for the statement list). -/
+theorem names_restored_stmts (P : List Obj) (π : List Nat → List Nat) (req : Request) (s : Store) :
+    (FrontIR.run buildIR ir P π req s).1 = s := by
+  rw [build_statements_refine, goodShape_eq generated_good]
+  exact build_fst P π true req s
+
+/-- The statement list of the pinned tree (no re-listing after `to_onnx_model`) is `Front.build` with
+    `fixed = false`, so `inputs_dropped_counterexample` is a statement about it: set order shows. -/
+theorem pinned_statements_counterexample :
+    inputsOf (FrontIR.run FrontIR.pinnedIR ir exP id ⟨exIns, exOuts, true⟩ (fun _ => none)).2
+      ≠ some (exIns.map (info exP)) := by
+  decide
+
+/-- Non-vacuity: the extracted statement list on the same request lists the inputs as given, and a
+    request whose output needs an unlisted argument ends in the KeyError guard. -/
+example : inputsOf (FrontIR.run buildIR ir exP id ⟨exIns, exOuts, true⟩ (fun _ => none)).2
+    = some (exIns.map (info exP)) := by decide
+def errOf (r : Except Err Model) : Option Err :=
+  match r with | .ok _ => none | .error e => some e
+example : errOf (FrontIR.run buildIR ir exP id ⟨[⟨"a", 0⟩], exOuts, true⟩ (fun _ => none)).2 = some .key := by
+  decide
+example : errOf (FrontIR.run buildIR ir exP id ⟨[⟨"a", 0⟩], exOuts, false⟩ (fun _ => none)).2 = some .key := by
+  decide
+example : errOf (FrontIR.run buildIR ir exP id ⟨exIns, [], false⟩ (fun _ => none)).2 = some .value := by
+  decide
+example : errOf (FrontIR.run buildIR ir exP id ⟨exIns ++ [⟨"y0", 2⟩], exOuts, false⟩ (fun _ => none)).2 = some .type := by
+  decide
 
 end C03
